@@ -50,6 +50,10 @@ structure SplitOk (S : Splitter) (df lo hi : Nat) : Prop where
   bucket : ∀ h, lo ≤ h → h ≤ hi → ∃ i, S.bucket lo hi df h = some i ∧ i < df ∧
       ((S.child lo hi df i).1 ≤ h ∧ h ≤ (S.child lo hi df i).2) ∧
       ∀ j, j < df → j ≠ i → ¬ ((S.child lo hi df j).1 ≤ h ∧ h ≤ (S.child lo hi df j).2)
+  /-- the parts are non-empty -/
+  ne : ∀ i, i < df → (S.child lo hi df i).1 ≤ (S.child lo hi df i).2
+  /-- the ranges the diff subdivides into (`genTupleRanges`) are these parts -/
+  gen : genTupleRanges lo hi df = (List.range df).map (S.child lo hi df)
 
 /-- the hypothesis of termination (F-ldiff-width): every range that has to be divided (more than
 `thr` elements) splits properly, down to the depth budget. -/
